@@ -533,7 +533,7 @@ def run(ctx):
                 'held was published by the provider, complete in-order delivery mirrors exactly; (b) SequenceId / InstanceId changes '
                 'followed by reports and reload_all; (c) init_mdib / reload_all racing with deferred in-order delivery and a writing '
                 'provider under the schedule explorer. distinct_nontrivial = delivery sequences / cases without violation')
-    hs = HISTORIES if not ctx.quick else HISTORIES[:10]
+    hs = HISTORIES if not ctx.quick else HISTORIES[:9] + HISTORIES[-2:-1]
     nch = 4
     jobs = [(i, h, c, nch, not ctx.quick) for i, h in enumerate(hs) for c in range(nch)]
     ctx.pmap(_fault_work, ctx.rotate(jobs), chunksize=1)
